@@ -381,7 +381,7 @@ theorem compact_inv {s s' : State} {rm : List Nat} {lvl : Nat} {add : List Run} 
 /-! ### restore -/
 
 theorem le_levelsMaxSeq (lv : List (List Tbl)) : ∀ t ∈ lv.flatten, ∀ e ∈ t.run, e.seq ≤ tablesMaxSeq lv.flatten :=
-  fun t ht e he => Nat.le_trans (le_runMaxSeq _ _ he) (le_tablesMaxSeq _ _ ht)
+  fun _ ht _ he => Nat.le_trans (le_runMaxSeq _ _ he) (le_tablesMaxSeq _ _ ht)
 
 theorem restoreBase_inv (files : Files) (c : Ckpt) : Inv (restoreBase files c) := by
   refine ⟨⟨[[]], rfl, by simp, rfl⟩, ⟨tablesMaxSeq c.levels.flatten + 1, trivial, Nat.le_refl _, rfl⟩,
